@@ -116,3 +116,12 @@ chk("C18", "histx+udp",
     "All histories of <= 3 (thorough 4) operations over 18 kinds (session opens failing at each step, commands succeeding / failing / retried / expiring / unserialisable, closes succeeding and failing), a 60-step background with each kind inserted at each position, and DialV2 / session / transport-close histories over UDP loopback; every bmc_* counter and gauge delta from prometheus.DefaultGatherer must equal the accounting of what the harness observed (calls, errors returned, transmissions beyond the first, valid responses per code, opens minus closes).",
     "One worker process per shard (the registry is process-global). Histograms are out of scope.",
     "DESIGN.md section 4 C18, appendix A.5")
+ENGINES += [
+    {"name": "schedx", "path": "harness/checks/c19.go + harness/cmd/instrument + harness/vschedsrc", "serves_properties": ["C19"],
+     "kind_free_text": "cooperative scheduler with preemption-bounded DFS over logical threads; scheduling points inserted into the current gebn/bmc sources by a go/ast rewriter through a build overlay (before every statement mentioning a package-level variable) and at transport Send entry/exit; companion free-running -race binary"},
+]
+chk("C19", "schedx",
+    "stateless model checking of the implementation under a controlled scheduler: all interleavings of 2-3 logical threads with <= k preemptions (iterative context bounding)",
+    "Each thread has its own connection, session, reference BMC and random stream and runs one of 6 workloads chosen to touch the same package-level state (default-suite discovery handshake, commands, DCMI group-extension path, SDR walk, close, session-less commands). The current /repo sources are instrumented at check time (overlay, /repo untouched) so that the library yields before every statement mentioning any package-level variable; the transport yields at Send entry/exit. All 21 unordered workload pairs are explored with k=1 (quick) / k=2 (thorough), three pairs with k+1, and 3-thread sets; oracle: each thread's results and the raw datagrams its BMC received equal the solo run, and a %#v dump of every package-level variable (Prometheus collectors aside) equals its post-init value. Companion: the same kind of bodies free-running over UDP loopback under the race detector (N=2..16), whose reports are turned into violations.",
+    "Sequentially consistent interleavings at the instrumented points only; state inside dependencies and weak-memory effects are left to the race-detector companion (sampled schedules, not the deciding step). A 40-transmission horizon per thread ends disturbed retry loops.",
+    "DESIGN.md section 3.4, section 4 C19")
